@@ -1,5 +1,6 @@
 import WK.Model.C07
 import WK.Spec.C07
+import WK.Proofs.C07_Inv8
 /-
   C07 — theorems about the executable store model (`WK.C07.step`, the function the
   driver runs against the real store).
@@ -296,5 +297,136 @@ theorem c07_reopen_durable (st : Store) (c : Nat) :
 theorem c07_loadLEO_idem (ch : Chan) : loadLEO (loadLEO ch).2 = ((loadLEO ch).1, (loadLEO ch).2) := by
   unfold loadLEO
   cases h : ch.leoC <;> simp [h]
+
+
+/-! ### the store invariant over whole histories (phase 3) -/
+
+/-- **c07_inv_init**: the empty store satisfies the invariant -/
+theorem c07_inv_init : Inv Store.init := inv_init
+
+/-- **c07_inv_step**: every operation of `step` preserves `Inv` under its caller
+    contract `Safe` (fresh ids outside strict mode, leader-validated keys in trusted
+    mode, and — the known finding made explicit — a raw `TruncateFrom` must not cut
+    below the durable RetainedMaxSeq). -/
+theorem c07_inv_step (st : Store) (op : Op) (hi : Inv st) (hs : Safe st op) : Inv (step st op).1 := inv_step st op hi hs
+
+/-- **c07_inv_run**: for ALL operation sequences that respect the contracts, starting
+    from the empty store, the invariant holds at the end (hence after every prefix). -/
+theorem c07_inv_run (ops : List Op) (hs : SafeRun Store.init ops) : Inv (run Store.init ops) :=
+  inv_run Store.init ops inv_init hs
+
+-- non-vacuity: a strict append, a trim, an append, a reopen
+example : SafeRun Store.init [.app 0 0 0 [⟨5, [1], [2], [3], 4⟩], .trim 0 1 0 0, .reopen] :=
+  ⟨⟨by decide, fun h => absurd rfl h, fun h => by cases h⟩, (by show 0 < numChan; decide), trivial, trivial⟩
+
+/-- **c07_contiguous**: in every reachable store, each channel's rows have pairwise
+    different sequences, none above the log end, and there is NO HOLE between the
+    logical retention floor and the log end; the cached LEO is the recovered LEO
+    (so lease close/reopen and whole-DB reopen cannot change it). -/
+theorem c07_contiguous (st : Store) (hi : Inv st) (c : Nat) :
+    (∀ r ∈ (st.chan c).rows, r.seq ≤ recoverLEO (st.chan c)) ∧
+    (∀ s, floorOf (st.chan c) < s → s ≤ recoverLEO (st.chan c) → ∃ r ∈ (st.chan c).rows, r.seq = s) ∧
+    (st.chan c).rows.Pairwise (fun a b => a.seq ≠ b.seq) ∧
+    (∀ l, (st.chan c).leoC = some l → l = recoverLEO (st.chan c)) :=
+  ⟨fun r hr => le_recoverLEO _ r hr, (hi.chan c).noHoles, (hi.chan c).nodup, (hi.chan c).cache⟩
+
+/-- **c07_leo_reopen**: a whole-DB reopen does not change the LEO a channel reports -/
+theorem c07_leo_reopen (st : Store) (hi : Inv st) (c : Nat) :
+    (loadLEO ((step st .reopen).1.chan c)).1 = (loadLEO (st.chan c)).1 := by
+  show (loadLEO ((doReopen st).chan c)).1 = _
+  rw [loadLEO_val _ (hi.chan c), loadLEO_val _ ((doReopen_inv st hi).chan c), reopen_chan]
+  rfl
+
+/-- **c07_index_agree**: in every reachable store every index entry points to a live
+    row with the same key fields, and every live row has its entries (all four indexes). -/
+theorem c07_index_agree (st : Store) (hi : Inv st) (c : Nat) :
+    GAgree st ∧ IAgree (st.chan c) ∧ SAgree (st.chan c) ∧ CAgree (st.chan c) :=
+  ⟨hi.gidx, (hi.chan c).iidx, (hi.chan c).sidx, (hi.chan c).cidx⟩
+
+/-- a lookup by message id never returns a removed or a different row (the code's own stale check) … -/
+theorem c07_byid_sound (st : Store) (c id : Nat) (r : Row) (h : doByid st c id = .msg r) :
+    r ∈ (st.chan c).rows ∧ r.id = id := by
+  unfold doByid at h
+  by_cases h0 : id = 0
+  · rw [if_pos h0] at h; cases h
+  rw [if_neg h0] at h
+  cases hl : alookup id st.gidx with
+  | none => rw [hl] at h; cases h
+  | some v =>
+    obtain ⟨c', s⟩ := v
+    rw [hl] at h
+    dsimp only at h
+    by_cases hc : c' ≠ c
+    · rw [if_pos hc] at h; cases h
+    rw [if_neg hc] at h
+    cases hg : getRow (st.chan c).rows s with
+    | error e => rw [hg] at h; cases h
+    | ok o =>
+      rw [hg] at h
+      cases o with
+      | none => cases h
+      | some x =>
+        dsimp only at h
+        by_cases hid : x.id ≠ id
+        · rw [if_pos hid] at h; cases h
+        rw [if_neg hid] at h
+        simp only [Out.msg.injEq] at h
+        subst h
+        refine ⟨?_, by simpa using hid⟩
+        unfold getRow at hg
+        by_cases hs0 : s = 0
+        · rw [if_pos hs0] at hg; cases hg
+        rw [if_neg hs0] at hg
+        cases hf : (st.chan c).rows.find? (fun r => r.seq = s) with
+        | none => rw [hf] at hg; cases hg
+        | some y =>
+          rw [hf] at hg
+          dsimp only at hg
+          cases hck : rowCheck y with
+          | error e => rw [hck] at hg; cases hg
+          | ok u =>
+            rw [hck] at hg
+            simp only [Except.ok.injEq, Option.some.injEq] at hg
+            subst hg
+            exact List.mem_of_find?_eq_some hf
+
+/-- … and, under the invariant, it finds every live row of the channel (no stale or missing entry). -/
+theorem c07_byid_complete (st : Store) (hi : Inv st) (c : Nat) (r : Row) (hr : r ∈ (st.chan c).rows)
+    (hchk : rowCheck r = .ok ()) : doByid st c r.id = .msg r := by
+  have hnz := (hi.chan c).nz r hr
+  have hl := (hi.gidx r.id c r.seq).mpr ⟨r, hr, rfl, rfl⟩
+  unfold doByid
+  rw [if_neg hnz.1, hl]
+  dsimp only
+  rw [if_neg (fun h => h rfl)]
+  have hf : (st.chan c).rows.find? (fun x => x.seq = r.seq) = some r := by
+    cases hfind : (st.chan c).rows.find? (fun x => x.seq = r.seq) with
+    | none =>
+      have := List.find?_eq_none.mp hfind r hr
+      simp at this
+    | some x =>
+      have hx := List.mem_of_find?_eq_some hfind
+      have hs := List.find?_some hfind
+      simp only [decide_eq_true_eq] at hs
+      rw [(hi.chan c).uniq x hx r hr hs]
+  unfold getRow
+  rw [if_neg hnz.2, hf]
+  simp [hchk]
+
+example : doByid (step Store.init (.app 1 0 0 [⟨5, [1], [2], [3], 4⟩])).1 1 5 = .msg (mkRow 1 ⟨5, [1], [2], [3], 4⟩) := by
+  decide +kernel
+
+/-- the known finding as a theorem: a raw `TruncateFrom` below the RetainedMaxSeq left by
+    a prefix trim (contract `SafeTrunc` violated) breaks LEO coherence — the cached LEO
+    is 4, a reopened database recovers 6. -/
+theorem c07_truncate_below_retained_counterexample :
+    let ops : List Op := [.app 0 0 0 ((List.range 6).map (fun i => ⟨i + 1, [], [], [7], 1⟩)), .trim 0 2 0 0, .trunc 0 5]
+    ((run Store.init ops).chan 0).leoC = some 4 ∧ recoverLEO ((run Store.init ops).chan 0) = 6 ∧
+    ¬ SafeTrunc (run Store.init (ops.take 2)) 0 5 := by
+  refine ⟨by decide +kernel, by decide +kernel, ?_⟩
+  intro h
+  have := h.2 (by decide +kernel)
+  revert this
+  decide +kernel
 
 end WK.C07
